@@ -312,7 +312,7 @@ impl FragmentAssembler {
 }
 
 // Verification hooks (C02): which fragments of which samples are in the assembly buffers.
-#[cfg(rustdds_verif)]
+#[cfg(all(rustdds_verif, any(not(rustdds_verif_only), rustdds_verif_c02)))]
 impl FragmentAssembler {
   pub(crate) fn verif_c02_buffers(&self) -> Vec<(i64, Vec<bool>)> {
     self
@@ -324,7 +324,7 @@ impl FragmentAssembler {
 }
 
 // Verification hook: read-only view of the assembly buffers.
-#[cfg(rustdds_verif)]
+#[cfg(all(rustdds_verif, any(not(rustdds_verif_only), rustdds_verif_c06)))]
 impl FragmentAssembler {
   /// per assembly buffer: (sequence number, buffer length, received bitmap)
   pub(crate) fn verif_digest(&self) -> Vec<(i64, usize, Vec<bool>)> {
